@@ -29,7 +29,7 @@ RULE = ('cases: (a) exhaustive: n in 1..N systems x priority pattern (distinct /
         '>=1 system ordered after the completer was due in the completing step; distinct by (priorities, position, timestep, tail).')
 ASSUMPTIONS = ['the clock value right after the completing step is not prescribed (the unit test counts that step); it must be frozen afterwards',
                'add_system/remove_system after completion may change the registry; only advance requests must change nothing']
-FLOORS = {'quick': {'unrelated_model_steps_between_requests': 5332, 'system_faults_caught': 116, 'completer_raised_after_complete': 39, 'completions_after_system_fault': 83, 'models_with_quiet_logger': 308, 'completions_mid_step': 910, 'completions_outside': 75, 'later_system_due_in_completing_step': 500,
+FLOORS = {'quick': {'failing_system_exception': 205, 'failing_system_interrupt': 83, 'unrelated_model_steps_between_requests': 5332, 'system_faults_caught': 116, 'completer_raised_after_complete': 39, 'completions_after_system_fault': 83, 'models_with_quiet_logger': 308, 'completions_mid_step': 910, 'completions_outside': 75, 'later_system_due_in_completing_step': 500,
                     'tail_execute': 2000, 'tail_execute_n': 2000, 'tail_execute_systems': 2000, 'tail_throw': 2000,
                     'model_complete_errors': 2000, 'tail_add': 1000, 'tail_remove': 500, 'batch_driver_runs': 20,
                     'pos_first': 100, 'pos_middle': 100, 'pos_last': 100, 'multi_step_past_completion': 200, 'long_tails': 30, 'long_requests_after_completion': 1000,
@@ -333,18 +333,22 @@ def case_raising(ctx, case):
     rng = ctx.rng('raising', case['i'])
     core, collectors, Logger = fixtures()
 
-    class Boom(Exception):
-        pass
+    from vlib import faults
+    raised, done = [], []
 
     class Faulty(Logger):
         raise_at = ()
         raise_after_complete = False
+        exc = faults.Boom
 
         def execute(self):
             t = self.model.systems.timestep
             super().execute()
+            if not self.model.is_running() and not done:
+                done.append(len(self.log))           # the model was completed during this very call: nothing may run after it
             if t in self.raise_at or (self.raise_after_complete and t == self.when):
-                raise Boom(self.id, t)
+                raised.append((self.id, t))
+                raise faults.make(self.exc, self.id, t)      # of any class: ordinary ones incl. NotImplementedError, or an Interrupt
 
     model = new_model(ctx, rng, core)
     log = []
@@ -353,6 +357,8 @@ def case_raising(ctx, case):
     style = rng.choice(['completer_raises', 'earlier_step', 'same_step_before', 'outside_after_fault', 'mixed'])
     systems = [Faulty(f's{j}', model, log, priority=rng.randint(-2, 2)) for j in range(n)]
     for s in systems:
+        s.exc = faults.pick(rng)
+        ctx.count('failing_system_interrupt' if s.exc is faults.Interrupt else 'failing_system_exception')
         model.systems.add_system(s)
     order = sorted(range(n), key=lambda j: (-systems[j].priority, j))
     cpos = rng.randrange(n)
@@ -365,33 +371,41 @@ def case_raising(ctx, case):
         rng.choice(systems).raise_at = tuple(rng.sample(range(tc), rng.randint(1, min(2, tc))))
     if style == 'same_step_before' and cpos > 0:
         systems[order[rng.randrange(cpos)]].raise_at = (tc,)
-    faults = 0
+    faults_ = 0
     guard = 0
     while model.is_running() and guard < 40:
         guard += 1
-        if style == 'outside_after_fault' and model.timestep >= tc and (faults or tc == 0 or guard > 12):
+        if style == 'outside_after_fault' and model.timestep >= tc and (faults_ or tc == 0 or guard > 12):
             model.complete()
             ctx.count('completions_outside')
             break
+        n_raised = len(raised)
         try:
             if rng.random() < 0.3:
                 model.execute(rng.randint(2, 4))
             else:
                 model.execute()
-        except Boom as e:
-            faults += 1
+        except BaseException as e:  # noqa - the application's outer loop catches everything, interrupts included
+            if len(raised) == n_raised:
+                raise
+            faults_ += 1
             ctx.count('system_faults_caught')
-            sid, t = e.args
+        if len(raised) > n_raised:
+            sid, t = raised[-1]
             if t in systems[int(sid[1:])].raise_at:
                 # the faulting step did not finish; make the fault one-off so that the run can go on
                 systems[int(sid[1:])].raise_at = tuple(x for x in systems[int(sid[1:])].raise_at if x != t)
     if model.is_running():
         model.complete()
-    if faults:
+    if faults_:
         ctx.count('completions_after_system_fault')
     if completer.raise_after_complete and not model.is_running():
         ctx.count('completer_raised_after_complete')
     check(model.is_running() is False and bool(model) is False, 'model still reports running after complete()')
+    if done and len(log) != done[0]:
+        raise CaseViolation('systems ran after a system had completed the model in the middle of a timestep (the completing system raised '
+                            f'{completer.exc.__name__} right after complete())' if completer.raise_after_complete else
+                            'systems ran after a system had completed the model in the middle of a timestep', ran_afterwards=log[done[0]:][:6], style=style)
     n_log = len(log)
     clock = (model.timestep, model.systems.timestep)
     for s in systems:
@@ -399,9 +413,9 @@ def case_raising(ctx, case):
     kinds = tail(ctx, rng, core, Logger, model, log)
     check(len(log) == n_log and (model.timestep, model.systems.timestep) == clock, 'state moved after completion', clock_before=clock,
           clock_after=(model.timestep, model.systems.timestep))
-    ctx.distinct(('raising', style, tc, cpos, faults, tuple(kinds)))
+    ctx.distinct(('raising', style, tc, cpos, faults_, tuple(kinds)))
     if case['i'] < 1:
-        ctx.sample({'kind': 'systems that raise', 'style': style, 'tc': tc, 'faults_caught': faults, 'tail': kinds})
+        ctx.sample({'kind': 'systems that raise', 'style': style, 'tc': tc, 'faults_caught': faults_, 'tail': kinds})
 
 
 def run_case(ctx, case):
